@@ -96,12 +96,14 @@ def rules_C07(ctx):
 
 
 def flag_for(files, ops=None):
-    return lambda ctx: [flag.flag(ctx, "all", files)] + ([variant.run(ctx, "all", ops)] if ops else [])
+    return lambda ctx: [flag.flag(ctx, "all", files)] + ([variant.run(ctx, "all", ops), flag.flag_range(ctx, "all", ops)]
+                                                        if ops else [])
 
 
 def rules_C05(ctx):
     return total_for("C05", ctx) + [canon_for(ctx, {"src/bits.rs"}), flag.flag(ctx, "all", {"src/bits.rs"}),
-                                    flag.lowlimb(ctx), variant.run(ctx, "all", ["shl", "shr"])]
+                                    flag.lowlimb(ctx), variant.run(ctx, "all", ["shl", "shr"]),
+                                    flag.flag_range(ctx, "all", ["shl", "shr"])]
 
 
 def rules_C09(ctx):
@@ -112,7 +114,8 @@ def rules_C09(ctx):
 
 
 def rules_C13(ctx):
-    return total_for("C13", ctx) + [flag.flag(ctx, "all", {"src/pow.rs"}), variant.run(ctx, "all", ["pow"])]
+    return total_for("C13", ctx) + [flag.flag(ctx, "all", {"src/pow.rs"}), variant.run(ctx, "all", ["pow"]),
+                                    flag.flag_range(ctx, "all", ["pow"])]
 
 
 def rules_C20(ctx):
